@@ -143,6 +143,14 @@ def rand_cfg(rng):
 
 def replay(body):
     a_ = body['args']
+    if a_.get('omitted_n_bins'):
+        b = dense(masks.radial_bins(centerX=a_['centerX'], centerY=a_['centerY'], imageSizeX=a_['imageSizeX'], imageSizeY=a_['imageSizeY'], radius=a_['radius'], radius_inner=a_['radius_inner']))
+        fail = ('%d bins instead of %d' % (b.shape[0], a_['n_bins'])) if b.shape[0] != a_['n_bins'] else stmt_failure(a_)
+        print(json.dumps({'failure_now': fail}, indent=1))
+        if fail:
+            print('VIOLATION property=C18 replay=(given)')
+            return 1
+        return 0
     fail = dtype_failure(a_, a_['dtype']) if a_.get('dtype') else (default_layout_failure(a_) if a_.get('default_layout') else stmt_failure(a_))
     print(json.dumps({'failure_now': fail}, indent=1))
     if fail:
@@ -252,6 +260,31 @@ def run(ctx):
         ctx.count(2, key=('dtype', dt, json.dumps(cfg, sort_keys=True)))
         if fail:
             ctx.violation('input', fail, {'kind': 'input', 'call': 'radial_bins', 'args': dict(cfg, dtype=dt), 'failure': fail})
+            break
+    # n_bins omitted with an explicit radius: the documented default is round(radius - radius_inner) bins (half to even); where that layout has
+    # bins at least one pixel wide (radius - radius_inner = k + 1/2 with k even, or near an integer) the partition of unity holds for it
+    for k in range(ctx.n(40, 300)):
+        cfg = rand_cfg(rng)
+        kk = 2 * int(rng.integers(1, 8))
+        span = float(kk) + float(rng.choice([0.5, 0.5, 0.25, 0.0, 0.49]))
+        cfg['radius'] = cfg['radius_inner'] + span
+        nb = int(np.round(span))
+        if span / nb < 1.0:
+            continue
+        try:
+            b = dense(masks.radial_bins(centerX=cfg['centerX'], centerY=cfg['centerY'], imageSizeX=cfg['imageSizeX'], imageSizeY=cfg['imageSizeY'], radius=cfg['radius'], radius_inner=cfg['radius_inner']))
+        except Exception as e:  # noqa
+            b = None
+            fail = 'radial_bins(n_bins omitted) raised %s: %s' % (type(e).__name__, e)
+        if b is not None:
+            fail = None
+            if b.shape[0] != nb:
+                fail = 'radial_bins(radius=%s, radius_inner=%s, n_bins omitted) made %d bins, the documented default round(radius - radius_inner) is %d (bins narrower than a pixel)' % (cfg['radius'], cfg['radius_inner'], b.shape[0], nb)
+            else:
+                fail = stmt_failure(dict(cfg, n_bins=nb))
+        ctx.count(1, key=('omitted n_bins', json.dumps(cfg, sort_keys=True)))
+        if fail:
+            ctx.violation('input', fail, {'kind': 'input', 'call': 'radial_bins', 'args': dict(cfg, n_bins=nb, omitted_n_bins=True), 'failure': fail})
             break
     for k in range(ctx.n(60, 600)):
         cfg = rand_cfg(rng)
